@@ -813,8 +813,126 @@ Proof. intros a b _ _. apply wcmp_numkey. Qed.
 Lemma num_eqv_pure ranks l : eqv_pure nat wkey werr weqv (num_kf ranks) num_e l.
 Proof. intros a b _ _. apply weqv_numkey. Qed.
 
+Lemma num_e_is_eq a b : num_e a b = true <-> num_c a b = Eq.
+Proof. unfold num_e, num_c. rewrite N.eqb_eq, N.compare_eq_iff. reflexivity. Qed.
+
 Lemma num_e_sym a b : num_e a b = num_e b a.
 Proof. unfold num_e. apply N.eqb_sym. Qed.
 
 Lemma num_e_trans a b c' : num_e a b = true -> num_e b c' = true -> num_e a c' = true.
 Proof. unfold num_e. rewrite !N.eqb_eq. congruence. Qed.
+
+(* ------------------------------------------------------------------ *)
+(* std.set: strictly key-sorted, made of input items, one per key of the input *)
+
+Section UniqMore.
+  Variables (A K E : Type) (keyf : A -> outcome K E) (eqv : K -> K -> outcome bool E).
+  Variables (kf : A -> K) (e : K -> K -> bool).
+  Hypothesis e_refl : forall a, e a a = true.
+  Hypothesis e_trans : forall a b c', e a b = true -> e b c' = true -> e a c' = true.
+
+  Lemma uniq_loop_sorted_cover (R : A -> A -> Prop) items : forall a0 (all : list A) r,
+    In a0 all -> incl items all -> keys_pure A K E keyf kf all -> eqv_pure A K E eqv kf e all ->
+    uniq_loop keyf eqv (kf a0) items = Ok r ->
+    (StronglySorted R items -> StronglySorted R r) /\ incl r items /\
+    (forall z, In z items -> exists y, In y (a0 :: r) /\ e (kf y) (kf z) = true).
+  Proof.
+    induction items as [|it more IH]; intros a0 all r H0 Hin HK HE H; cbn [uniq_loop] in H.
+    - inversion H; subst. split; [auto|]. split; [intros x []|intros z []].
+    - assert (Hit : In it all) by (apply Hin; left; reflexivity).
+      rewrite (HK it Hit) in H; cbn [obind] in H. rewrite (HE a0 it H0 Hit) in H; cbn [obind] in H.
+      obind_inv H. rename v into r'. inversion H; subst r; clear H.
+      destruct (IH it all r' Hit) as [Hs [Hi Hc]]; try assumption; [intros x Hx; apply Hin; right; exact Hx|].
+      destruct (e (kf a0) (kf it)) eqn:Ee.
+      + split; [intros S; inversion S; subst; auto|]. split; [intros x Hx; right; apply Hi; exact Hx|].
+        intros z [<-|Hz]; [exists a0; split; [left; reflexivity|exact Ee]|].
+        destruct (Hc z Hz) as [y [[<-|Hy] Hyz]].
+        * exists a0. split; [left; reflexivity|]. eapply e_trans; eassumption.
+        * exists y. split; [right; exact Hy|exact Hyz].
+      + split; [|split].
+        * intros S; inversion S as [|? ? S' F]; subst. constructor; [auto|].
+          apply Forall_forall; intros y Hy. exact (proj1 (Forall_forall _ _) F y (Hi y Hy)).
+        * intros x [<-|Hx]; [left; reflexivity|right; apply Hi; exact Hx].
+        * intros z [<-|Hz]; [exists it; split; [right; left; reflexivity|apply e_refl]|].
+          destruct (Hc z Hz) as [y [Hy Hyz]]. exists y. split; [right; exact Hy|exact Hyz].
+  Qed.
+
+  Lemma std_uniq_sorted_cover (R : A -> A -> Prop) arr r :
+    keys_pure A K E keyf kf arr -> eqv_pure A K E eqv kf e arr -> std_uniq keyf eqv arr = Ok r ->
+    (StronglySorted R arr -> StronglySorted R r) /\
+    (forall z, In z arr -> exists y, In y r /\ e (kf y) (kf z) = true).
+  Proof.
+    intros HK HE H. destruct arr as [|a0 [|a1 rest]]; cbn [std_uniq] in H.
+    - inversion H; subst; split; [auto|intros z []].
+    - inversion H; subst; split; [auto|]. intros z [<-|[]]. exists a0; split; [left; reflexivity|apply e_refl].
+    - rewrite (HK a0 (or_introl eq_refl)) in H; cbn [obind] in H.
+      obind_inv H. inversion H; subst r; clear H.
+      destruct (uniq_loop_sorted_cover R (a1 :: rest) a0 (a0 :: a1 :: rest) v) as [Hs [Hi Hc]]; try assumption;
+        [left; reflexivity|intros x Hx; right; exact Hx|].
+      split.
+      + intros S; inversion S as [|? ? S' F]; subst. constructor; [auto|].
+        apply Forall_forall; intros y Hy. exact (proj1 (Forall_forall _ _) F y (Hi y Hy)).
+      + intros z [<-|Hz]; [exists a0; split; [left; reflexivity|apply e_refl]|]. apply Hc; exact Hz.
+  Qed.
+End UniqMore.
+
+Section SetSpec.
+  Variables (A K E : Type) (keyf : A -> outcome K E) (cmp : K -> K -> outcome comparison E) (eqv : K -> K -> outcome bool E).
+  Variables (kf : A -> K) (c : K -> K -> comparison) (e : K -> K -> bool).
+  Hypothesis TP : total_preorder c.
+  Hypothesis e_is_eq : forall a b, e a b = true <-> c a b = Eq.
+
+  Lemma strict_of_le_neq r :
+    StronglySorted (fun x y => c (kf x) (kf y) <> Gt) r -> Sorted (fun x y => e (kf x) (kf y) = false) r ->
+    StronglySorted (klt A K kf c) r.
+  Proof.
+    induction r as [|x r IH]; intros S N; [constructor|].
+    inversion S as [|? ? S' F]; subst. inversion N as [|? ? N' Hd]; subst.
+    constructor; [apply IH; assumption|].
+    destruct r as [|y0 r]; [constructor|].
+    inversion Hd as [|? ? Hne]; subst.
+    assert (Hlt0 : c (kf x) (kf y0) = Lt).
+    { pose proof (proj1 (Forall_forall _ _) F y0 (or_introl eq_refl)) as Hle.
+      destruct (c (kf x) (kf y0)) eqn:Ec; [|reflexivity|congruence].
+      apply e_is_eq in Ec. congruence. }
+    inversion S' as [|? ? _ F']; subst.
+    constructor; [exact Hlt0|].
+    apply Forall_forall; intros y Hy. unfold klt.
+    apply (lt_le_trans K c TP _ (kf y0)); [exact Hlt0|].
+    exact (proj1 (Forall_forall _ _) F' y Hy).
+  Qed.
+
+  Theorem set_spec arr :
+    keys_pure A K E keyf kf arr -> cmp_pure A K E cmp kf c arr -> eqv_pure A K E eqv kf e arr ->
+    exists r, std_set keyf cmp eqv arr = Ok r /\ is_set A K kf c r /\ incl r arr /\
+      (forall z, In z arr -> exists y, In y r /\ c (kf y) (kf z) = Eq).
+  Proof.
+    intros HK HC HE. rewrite set_is_uniq_sort.
+    destruct (std_sort_correct A K E keyf cmp kf c TP arr HK HC) as [s [Es [Ps [Ss _]]]].
+    rewrite Es; cbn [obind].
+    assert (Is : incl s arr) by (intros z Hz; eapply Permutation_in; eassumption).
+    assert (HKs : keys_pure A K E keyf kf s) by (intros a Ha; apply HK; apply Is; exact Ha).
+    assert (HEs : eqv_pure A K E eqv kf e s) by (intros a b Ha Hb; apply HE; apply Is; assumption).
+    assert (e_refl : forall a, e a a = true) by (intros a; apply e_is_eq; apply (tp_refl c TP)).
+    assert (e_sym : forall a b, e a b = e b a).
+    { intros a b. destruct (e a b) eqn:E1, (e b a) eqn:E2; try reflexivity.
+      - apply e_is_eq in E1. apply (eq_sym K c TP) in E1. apply e_is_eq in E1. congruence.
+      - apply e_is_eq in E2. apply (eq_sym K c TP) in E2. apply e_is_eq in E2. congruence. }
+    assert (e_trans : forall a b c', e a b = true -> e b c' = true -> e a c' = true).
+    { intros a b c' H1 H2. apply e_is_eq in H1. apply e_is_eq in H2. apply e_is_eq.
+      rewrite <- (eq_cong_l K c TP a b c' H1). exact H2. }
+    destruct s as [|d0 s0] eqn:Es0.
+    { exists []. split; [reflexivity|]. split; [constructor|]. split; [intros z []|].
+      intros z Hz. apply Permutation_sym in Ps. apply (Permutation_in _ Ps) in Hz. destruct Hz. }
+    rewrite <- Es0 in *.
+    destruct (uniq_spec A K E keyf eqv kf e s d0 HKs HEs) as [mask [_ [_ Eu]]].
+    exists (pick mask s). split; [exact Eu|].
+    destruct (uniq_no_adjacent_duplicates A K E keyf eqv kf e e_sym e_trans s _ HKs HEs Eu) as [Hn Hi].
+    destruct (std_uniq_sorted_cover A K E keyf eqv kf e e_refl e_trans
+                (fun x y => c (kf x) (kf y) <> Gt) s _ HKs HEs Eu) as [Hs Hc].
+    split; [apply strict_of_le_neq; [apply Hs; exact Ss|exact Hn]|].
+    split; [intros z Hz; apply Is; apply Hi; exact Hz|].
+    intros z Hz. apply Permutation_sym in Ps. apply (Permutation_in _ Ps) in Hz.
+    destruct (Hc z Hz) as [y [Hy He]]. exists y. split; [exact Hy|apply e_is_eq; exact He].
+  Qed.
+End SetSpec.
